@@ -46,6 +46,23 @@ CLAIMS = {
              "the cursor and settings unchanged; ich_then_dch: cells pushed across the edge do not come back; nothing_hidden: nothing is stored outside the grid afterwards. "
              "propC13 is evaluated on the crate's transitions, and the dumped buffers are checked for keys outside the grid.",
         technique=TECH, design="7 (C13)"),
+    "C08": dict(
+        text="Theorems C08.table_eq (the five regenerated SGR tables equal the documented 46-entry table, for every code: 0..107 by kernel decision, >=108 by a key-bound lemma), "
+             "palette_table (all 256 regenerated palette strings equal the xterm formula: 16 base colours, 6x6x6 cube, 24 greys; decide +kernel), loop_eq_spec / sgr_eq_spec "
+             "(select_graphic_rendition is the documented left-to-right fold with the documented parameter consumption, for every parameter list; only the cursor's rendition changes), "
+             "sgr_single/sgr_256/sgr_256_out_of_range/sgr_rgb/sgr_reset, draw_uses_rendition, C08_holds. propC08 (the independent fold) is evaluated on every SGR transition of the crate.",
+        technique=TECH, design="7 (C08)"),
+    "C12": dict(
+        text="Theorems C12.sm_membership / rm_membership (exactly the listed numbers, private ones as 32n), sm_other / rm_other (a list without DECSCNM/DECCOLM/DECOM/DECTCEM changes "
+             "only membership - for every number), sm/rm_dectcem, sm/rm_decom (homing), sm/rm_decscnm (every cell, current and default rendition, all rows dirty), "
+             "sm/rm_deccolm (132 columns / saved width back, erased with the current rendition, home), C12_holds for the executable predicate. propC12 is evaluated on every SM/RM transition of the crate.",
+        technique=TECH, design="7 (C12)",
+        note="'Previous width' is read as the width at the last SM ?3 (the code overwrites the saved width on a repeated SM; DESIGN R8 revised)."),
+    "C14": dict(
+        text="Theorems C14.save_spec, restore_spec (pop; position clamped into screen/region; rendition, visibility, G0/G1/shift reinstated; DECOM/DECAWM re-enabled; everything else equal), "
+             "restore_empty (home, DECOM cleared), stack_discipline (for every one of the 43 operations incl. draw, resize, DECCOLM: the stack changes only by DECSC push / DECRC pop), "
+             "restore_after_save_stack, C14_holds. propC14 is evaluated on every transition of the crate (stack unchanged by other calls).",
+        technique=TECH, design="7 (C14)"),
     "C18": dict(
         text="Theorems C18.tabs_initial/tabs_after_reset (stops at 8,16,..<columns), hts/tbc_* (set algebra, other selectors no-op), ht (nearest stop strictly right, "
              "else last column, never beyond, nothing else changes) and C18_holds for the executable predicate, for every width and stop set. propC18 is evaluated on the crate's transitions.",
